@@ -180,6 +180,18 @@ def gen_elements() -> str:
         except BaseException:
             return ".otherError"
 
+    def fsn_ab(v):
+        try:
+            return lbits(FragmentSequenceNumber(v).as_bits())  # noqa: F821
+        except BaseException:
+            return "[]"
+
+    def fsn_last(v):
+        try:
+            return bool(FragmentSequenceNumber(v).is_last())
+        except BaseException:
+            return False
+
     out.append(
         "def eFragmentSequenceNumber : Elem where\n"
         '  name := "FragmentSequenceNumber"\n'
@@ -187,12 +199,12 @@ def gen_elements() -> str:
         f"  graph := {lres([fsn(v) for v in range(16)])}\n"
         f"  fromBits := {lres([fsn_fb(v) for v in range(16)])}\n"
         f"  members := {lnats(list(range(16)))}\n"  # noqa: F821
-        "  asBits := [" + ",\n    ".join(lbits(FragmentSequenceNumber(v).as_bits()) for v in range(16)) + "]\n"  # noqa: F821
+        "  asBits := [" + ",\n    ".join(fsn_ab(v) for v in range(16)) + "]\n"
     )
     names.append("eFragmentSequenceNumber")
     out.append(
         "/-- `FragmentSequenceNumber(v).is_last()` for v = 0 … 15 -/\n"
-        f"def fsnIsLast : List Bool := {lbits([FragmentSequenceNumber(v).is_last() for v in range(16)])}\n"  # noqa: F821
+        f"def fsnIsLast : List Bool := {lbits([fsn_last(v) for v in range(16)])}\n"  # noqa: F821
     )
 
     out.append("/-- every extracted element -/\ndef allElems : List Elem := [" + ", ".join(names) + "]\n")
